@@ -16,15 +16,17 @@ def jobs(rng, thorough):
     return out
 
 
-def jobs_api(rng, thorough):
+def jobs_api(rng, thorough, with_other=False):
     """the user's disconnect callback handed to YncaApi: the link fails (EOF after k bytes / drop at time t) during or after initialize()"""
     T = core.tables()
     out = []
-    while len(out) < (6000 if thorough else 150):
+    while len(out) < ((6000 if thorough else 150) if not with_other else (2000 if thorough else 50)):
         spec = gen.api_init_fault(rng, T)
         if spec["fault"] in ("eof", "drop"):
             if spec["fault"] == "drop" and rng.random() < 0.5:
                 spec["device"]["drop_at"] = round(rng.uniform(8.0, 40.0), 3)        # usually after initialize() has returned
+            if with_other != bool(spec.get("other_device")):
+                continue
             out.append((spec, rng.randrange(10 ** 9), rng.choice([0, 0, 3])))
     return out
 
@@ -52,6 +54,8 @@ def run(ctx: core.Ctx):
                    label="hundreds of API calls on the dead connection (monitor only)", accept=False)
     b2check.run_b2(ctx, jobs_hot, ["C15"], label="lifecycle scenarios with bytecode-level preemption inside the disconnect handling, monitor only", accept=False)
     b2check.run_b2(ctx, jobs_api, ["C15"], label="link failure during / after YncaApi.initialize() (the callback given to YncaApi)")
+    b2check.run_b2(ctx, lambda rng, th: jobs_api(rng, th, with_other=True), ["C15two"],
+                   label="... and afterwards another YncaApi object of the same process talks to another, healthy receiver (first object judged)")
     ctx.info["rule"] = ("sessions of two caller threads with bursts, a link drop / EOF / write error / close() inserted at a random position, close() from a caller, "
                         "from inside a message callback, from the disconnect callback, repeated and concurrent, then API calls on the dead connection; each under a "
                         "seeded schedule with 0/3/6 extra line-level preemptions; a case = one schedule; non-trivial = distinct (spec, seed)")
